@@ -798,10 +798,12 @@ def unpack_dataclass(spec: ValueSpec) -> Optional[Expression]:
             return f"{cls_alias}.{method_name}({method_args})"
         else:
             method_name_alias = f"{cls_alias}_{method_name}"
-            spec.builder.ensure_object_imported(
-                getattr(spec.attrs, method_name),
-                method_name_alias,
-            )
+            method = getattr(spec.attrs, method_name, None)
+            if method is None:
+                # the method of this very class is being compiled right now
+                # (self-referencing dataclass): bind it late via its holder
+                return f"{spec.cls_attrs_name}.{method_name}({method_args})"
+            spec.builder.ensure_object_imported(method, method_name_alias)
             return f"{method_name_alias}({method_args})"
 
 
